@@ -31,16 +31,28 @@ Fixpoint wfb (t : hnode) : bool :=
       && forallb wfb kids
   | Txt _ => true
   | Raw _ => false
+  | RawEl _ _ => false
   end.
+
+Lemma str_mem_In : forall x l, str_mem x l = true -> In x l.
+Proof.
+  intros x l H. unfold str_mem in H. apply existsb_exists in H. destruct H as (y & Hy & E).
+  apply str_eqb_eq in E. now subst.
+Qed.
+Lemma vocabulary_not_raw : forall tag, str_mem tag vocabulary_tags = true -> is_raw_tag tag = false.
+Proof.
+  intros tag H. apply str_mem_In in H. unfold vocabulary_tags in H.
+  repeat (destruct H as [<-|H]; [reflexivity|]). destruct H.
+Qed.
 
 Lemma wfb_names_ok : forall t, wfb t = true -> names_ok t.
 Proof.
   unfold names_ok.
-  induction t as [tag opts attrs kids IH|s|s] using hnode_ind'; intros H; [|reflexivity|discriminate].
+  induction t as [tag opts attrs kids IH|s|s|tag body] using hnode_ind'; intros H; [|reflexivity|discriminate|discriminate].
   cbn [wfb] in H. cbn [names_okb].
   apply andb_prop in H; destruct H as [H Hk]. apply andb_prop in H; destruct H as [H Ha].
-  apply andb_prop in H; destruct H as [Ht Ho]. apply andb_prop in Ht; destruct Ht as [Ht _].
-  rewrite Ht. cbn [andb].
+  apply andb_prop in H; destruct H as [Ht Ho]. apply andb_prop in Ht; destruct Ht as [Ht Hv].
+  rewrite Ht, (vocabulary_not_raw _ Hv). cbn [andb negb].
   assert (E1 : forallb name_okb opts = true).
   { rewrite forallb_forall in Ho |- *. intros x Hx. specialize (Ho x Hx). now apply andb_prop in Ho. }
   assert (E2 : forallb (fun a => name_okb (fst a)) attrs = true).
@@ -50,17 +62,11 @@ Proof.
   now rewrite E1, E2, E3.
 Qed.
 
-Lemma str_mem_In : forall x l, str_mem x l = true -> In x l.
-Proof.
-  intros x l H. unfold str_mem in H. apply existsb_exists in H. destruct H as (y & Hy & E).
-  apply str_eqb_eq in E. now subst.
-Qed.
-
 Lemma wfb_vocab : forall t, wfb t = true ->
   incl (tags_of t) vocabulary_tags /\ incl (optnames_of t) vocabulary_opts /\ incl (attrnames_of t) vocabulary_attrs.
 Proof.
-  induction t as [tag opts attrs kids IH|s|s] using hnode_ind'; intros H;
-    [|repeat split; intros x [] | discriminate].
+  induction t as [tag opts attrs kids IH|s|s|tag body] using hnode_ind'; intros H;
+    [|repeat split; intros x [] | discriminate | discriminate].
   cbn [wfb] in H.
   apply andb_prop in H; destruct H as [H Hk]. apply andb_prop in H; destruct H as [H Ha].
   apply andb_prop in H; destruct H as [Ht Ho]. apply andb_prop in Ht; destruct Ht as [_ Ht].
